@@ -38,8 +38,8 @@ ASSUMPTIONS = ["authenticate() returns true; no SessionConfig (_sf), no login sc
 RULE = ("SessionID members on ALL pairs of identities over the CompID alphabet {A, AB, B, a} (exhaustive, 256) plus random longer "
         "strings; logon histories: acceptor with own CompID x Logon SenderCompID x TargetCompID over {A, AB, B} x enforce_compids x "
         "client list (absent / containing / not containing the sender) x ResetSeqNumFlag (absent / Y), plus ResetSeqNumFlag=N, "
-        "reset_sequence_numbers, send/recv_seqnum arguments, other HeartBtInt values, out-of-sequence logons, file persister with "
-        "restart; initiator with identity x response CompIDs over the alphabet x enforce_compids, plus reset_sequence_numbers / "
+        "reset_sequence_numbers, send/recv_seqnum arguments, other HeartBtInt values, out-of-sequence logons, traffic before the logon, "
+        "file persister with restart; initiator with identity x response CompIDs over the alphabet x enforce_compids, plus reset_sequence_numbers / "
         "recv_seqnum / out-of-sequence; half of the cases continue with a Heartbeat on the established session. "
         "non-trivial = identities that differ, or a Logon that was processed; distinct = distinct case lines")
 
@@ -98,7 +98,8 @@ def logon_msg(seq, sender, target, hb=30, reset=None, now=T0, extra=()):
     return S.fixmsg("A", seq, sender, target, body + list(extra), now=now)
 
 
-def acceptor_case(own, snd, tgt, ec, clients, reset, hb=30, seq=None, rsn=0, ss=0, rs=0, persist="none", follow=False, hbcfg=30):
+def acceptor_case(own, snd, tgt, ec, clients, reset, hb=30, seq=None, rsn=0, ss=0, rs=0, persist="none", follow=False, hbcfg=30,
+                  pre=0):
     p = ["START", "A", persist, "sid=%s:%s" % (own, "PEER"), "asa=0", "ec=%d" % ec, "hb=%d" % hbcfg]
     if rsn:
         p.append("rsn=1")
@@ -108,9 +109,15 @@ def acceptor_case(own, snd, tgt, ec, clients, reset, hb=30, seq=None, rsn=0, ss=
         p.append("rs=%d" % rs)
     if clients:
         p.append("clients=" + ",".join(clients))
-    exp = 1 if reset == "Y" else (rs or 1)
+    exp = 1 if reset == "Y" else (rs or 1 + pre)
     n = exp if seq is None else seq
-    ops = [" ".join(p), "IN " + logon_msg(n, snd, tgt, hb, reset).hex()]
+    ops = [" ".join(p)]
+    for k in range(pre):        # traffic before the logon: the numbers move away from 1
+        if k % 2 == 0:
+            ops.append("IN " + S.fixmsg("1", k + 1, snd, tgt, [(112, "PRE%d" % k)]).hex())
+        else:
+            ops.append("IN " + S.fixmsg("0", k + 1, snd, tgt).hex())
+    ops.append("IN " + logon_msg(n, snd, tgt, hb, reset).hex())
     if follow:
         ops.append("CLOCK %d" % (T0 + 10**9))
         ops.append("IN " + S.fixmsg("0", n + 1, snd, tgt, now=T0 + 10**9).hex())
@@ -187,6 +194,13 @@ def gen_cases(rng, tier):
         hb = rng.choice([30, 0, 1, 7, 100, 3600, "030"])
         add(acceptor_case(own, snd, tgt, ec, cl, reset, hb=hb, seq=seq, rsn=rng.randrange(2), ss=ss, rs=rs,
                           follow=rng.random() < 0.5, hbcfg=rng.choice([30, 10])), "acceptor-variation")
+    # traffic before the logon: only then does ResetSeqNumFlag=Y change anything for a fresh acceptor
+    for _ in range(120 if thorough else 36):
+        own, snd = rng.choice(IDS), rng.choice(IDS)
+        reset = rng.choice([None, "Y", "Y"])
+        pre = rng.randint(1, 3)
+        add(acceptor_case(own, snd, own if rng.random() < 0.8 else rng.choice(IDS), rng.randrange(2), rng.choice(client_lists(snd)),
+                          reset, pre=pre, rs=rng.choice([0, 0, 0, 5]), follow=rng.random() < 0.5), "acceptor-pre-traffic")
     # file persister: the second session recovers its numbers from the control record
     for _ in range(60 if thorough else 16):
         own, snd = rng.choice(IDS), rng.choice(IDS)
